@@ -812,6 +812,11 @@ class Interp:
                 return obj.value
             if attr == "name":
                 return obj.member
+            # a method the enum class defines itself (e.g. AssignmentType.is_shift()): bound to the member
+            if obj.cls in self.idx.classes:
+                m = self.idx.resolve_method(obj.cls, attr)
+                if m is not None:
+                    return BoundMethod(obj, m)
             if isinstance(obj.value, str):
                 return StrMethod(obj.value, attr)
         if isinstance(obj, Tok) and attr in ("type", "value"):
